@@ -95,7 +95,24 @@ func genConcOps(rc *RunCtx, nKeys, nOps int, withOdd bool) []*Op {
 				o.Entries = append(o.Entries, e)
 			}
 			return o
-		case kind <= 8: // proposal
+		case kind <= 8: // proposal, or (a third of the time) a multisign over several keys in drawn order
+			if ch.Pick(3, 0) == 2 && nKeys >= 2 {
+				n := 2 + ch.Pick(nKeys-1, 0)
+				start := ch.Pick(nKeys, 0)
+				step := 1 + ch.Pick(2, 0)*(nKeys-2)
+				o := &Op{Kind: "multi", Client: cl}
+				for i := 0; i < n; i++ {
+					k := (start + i*step) % nKeys
+					if step != 1 {
+						k = (start + nKeys*4 - i) % nKeys // descending order
+					}
+					e := GenEntry(k, MkDomain([4]byte{7, 0, 0, 0}, uniq), uniq)
+					uniq++
+					e.ByKey = byKey()
+					o.Entries = append(o.Entries, e)
+				}
+				return o
+			}
 			e := PropEntry(ch.Pick(nKeys, 0), uint64(ch.Pick(5, 0)), uniq)
 			uniq++
 			e.ByKey = byKey()
